@@ -123,12 +123,14 @@ func (g genInfo) tomb() bool {
 }
 
 func (s *fakeStore) gens() []genInfo {
+	// s.files is sorted by generation: every generation is a sub-slice (capacity-limited, callers
+	// only read it; wide generations make copying the large ExtFileStat structs expensive)
 	var out []genInfo
-	for _, f := range s.files {
-		if n := len(out); n > 0 && out[n-1].id == f.Generation {
-			out[n-1].files = append(out[n-1].files, f)
-		} else {
-			out = append(out, genInfo{id: f.Generation, files: []tsm1.ExtFileStat{f}})
+	start := 0
+	for i := 1; i <= len(s.files); i++ {
+		if i == len(s.files) || s.files[i].Generation != s.files[start].Generation {
+			out = append(out, genInfo{id: s.files[start].Generation, files: s.files[start:i:i]})
+			start = i
 		}
 	}
 	return out
@@ -190,6 +192,11 @@ type world struct {
 func newWorld(files []tsm1.ExtFileStat, coldDur time.Duration) *world {
 	st := &fakeStore{files: files, lastMod: fsStale}
 	st.sortFiles()
+	return newWorldOn(st, coldDur)
+}
+
+// newWorldOn: a fresh planner + bookkeeping over an existing (already sorted) fake store.
+func newWorldOn(st *fakeStore, coldDur time.Duration) *world {
 	w := &world{st: st, coldDur: coldDur, heldFiles: map[string]int{}, sigs: map[string]int{}, byCall: map[string]int{}, dirty: true}
 	w.p = tsm1.NewDefaultPlanner(st, coldDur)
 	return w
